@@ -167,6 +167,10 @@ func trimOut(s string) string {
 	return s
 }
 
+// importantObl decides which obligations get the full race; the others (unclaimed ones in a
+// check run) only get the short first attempt and are reported as unproved.
+var importantObl func(o *Obl) bool
+
 func dischargeAll(vcs []*VC, timeoutS, seed, workers int) {
 	type job struct {
 		vc *VC
@@ -183,6 +187,9 @@ func dischargeAll(vcs []*VC, timeoutS, seed, workers int) {
 			defer wg.Done()
 			for j := range jobs {
 				if !j.vc.quickTry(j.o, timeoutS, seed) {
+					if importantObl != nil && !importantObl(j.o) {
+						continue
+					}
 					mu.Lock()
 					hard = append(hard, j)
 					mu.Unlock()
